@@ -77,6 +77,8 @@ type OpRec struct {
 
 // World ties the client under test to the simulated environment.
 type World struct {
+	idHigh          map[string][2]string
+	idHighN         map[string]uint64
 	sharedScanOpts  []func(hrpc.Call) error
 	filterOpt       func(hrpc.Call) error
 	Env             *Env
